@@ -25,7 +25,10 @@ type GraphCase struct {
 	Reps    int      `json:"reps"`
 }
 
-var graphNames = []string{"na", "nb", "nc", "nd", "ne", "nf", "ng", "nh"}
+// Task names: underscores are identifier characters, so names are chosen such that different
+// (dependency, task) pairs concatenate to the same text: "a_a"+"_"+"a" == "a"+"_"+"a_a" and
+// "b_c"+"_"+"d" == "b"+"_"+"c_d".
+var graphNames = []string{"a", "a_a", "d", "b_c", "c_d", "b", "e", "e_f"}
 
 const undefinedName = "zz"
 
